@@ -188,6 +188,19 @@ M = {
     "            response: GeminiResponse = await response_future\n            return response\n        except TimeoutError as e:\n            raise TimeoutError(f\"Request timeout: {url}\") from e", 1)]),
  "C13-m4-charset-lookup-uncaught": ("C13", "LookupError not caught again (the original defect)", [(CP,
     "except (UnicodeDecodeError, LookupError, ValueError) as e:", "except UnicodeDecodeError as e:", 2)]),
+ "C13-m5-no-connect-timeout": ("C13", "connection phase without timeout (get)", [(CS,
+    """                    server_hostname=parsed.hostname,
+                ),
+                timeout=self.timeout,
+            )
+        except TimeoutError as e:
+            raise TimeoutError(f"Connection timeout: {url}") from e""",
+    """                    server_hostname=parsed.hostname,
+                ),
+                timeout=None,
+            )
+        except TimeoutError as e:
+            raise TimeoutError(f"Connection timeout: {url}") from e""", 2)]),
  # ---- C14 ---------------------------------------------------------------
  "C14-m1-check-before-resolve": ("C14", "containment checked on the unresolved path", [(HD,
     "        target = (self.upload_dir / request.path.lstrip(\"/\")).resolve()\n        if not self._is_safe_path(target):",
